@@ -141,7 +141,15 @@ def run(ctx, pid=PID, check=_life.check_c03, with_up=WITH_UP):
                     ctx.violation(sc, "UpdatePredictLabels: first pass of %s labelled %s, second pass over the same data %s"
                                   % (entry["name"], list(up1.index), list(up2.index)))
                 else:
-                    ctx.nontriv(sc)
+                    # ... and over data that begin BEFORE the cutoff (an overlapping stretch): the cutoff is where it was
+                    f.update(ynew, update_params=False)
+                    f.update_predict(LC.batch(16, 21, 3, 0, "range"),
+                                     cv=_SWS(fh=fhs, window_length=2, step_length=2, start_with_window=True), update_params=False)
+                    if int(f.cutoff) != 17:
+                        ctx.violation(sc, "CutoffRestored: update_predict over time points 16..21 left the cutoff of %s at %s (was 17)"
+                                      % (entry["name"], f.cutoff))
+                    else:
+                        ctx.nontriv(sc)
             except Exception as e:
                 ctx.violation(sc, "crash: %s %s" % (type(e).__name__, str(e)[:140]))
         # update_predict with a horizon that reaches into the sample (window forecasters answer those steps by a
